@@ -37,12 +37,15 @@ package oracles
 //@   ensures result1 == nil ==> issued(result0)
 
 // setLastTS publishes only PD-issued values and only strictly newer ones (the CAS succeeds only against the value
-// that was compared).
+// that was compared); a scope's entry is created by the atomic LoadOrStore only, and every return happens after the
+// published value (last) was loaded and either is not older than the candidate or was replaced by it.
 //@ func (o *pdOracle) setLastTS
 //@   prop C13
 //@   requires issued(ts)
 //@   at call(CompareAndSwap) assert newer: current.tso > last.tso && issued(current.tso) && arg1 == last && arg2 == current
 //@   at call(Store) assert first: issued(current.tso)
+//@   at call(LoadOrStore) assert atomicinsert: arg2 != nil
+//@   ensures published: current.tso <= last.tso || lastTSPointer.v == current
 
 //@ func (o *pdOracle) GetTimestamp
 //@   prop C13
